@@ -499,8 +499,8 @@ def resolve_flags(paths: List[Path]) -> List[Path]:
                     inner, neg = inner.operand, not neg
                 if isinstance(inner, ast.Name) and inner.id in env:
                     val = env[inner.id]
-                    if isinstance(val, ast.Constant) and isinstance(val.value, bool):
-                        if (val.value != neg) != pol:
+                    if isinstance(val, ast.Constant) and (isinstance(val.value, (bool, int, str)) or val.value is None):
+                        if (bool(val.value) != neg) != pol:
                             feasible = False
                             break
                         continue                      # a test that is decided: no information
